@@ -512,7 +512,7 @@ func GenDirective(t *rapid.T, p *Profile, pools *Pools, year *int, o JournalOpts
 	case "commodity-nofmt":
 		return &m.Directive{Kind: "commodity", Sym: rapid.SampledFrom(pools.Syms).Draw(t, "dsym")}
 	case "include":
-		paths := []string{"other.journal", "sub/2024.journal", "./x.journal", "/abs/path/file.journal", "~/home.journal", "*.journal", "sub/**/*.journal", "f[12]?.journal", "dir with space/a.journal"}
+		paths := []string{"other.journal", "sub/2024.journal", "./x.journal", "/abs/path/file.journal", "~/home.journal", "*.journal", "sub/**/*.journal", "f[12]?.journal", "dir with space/a.journal", "2024 budget.journal", "01 Jan.journal", "MY FILES/x.journal", "A 1.journal"}
 		return &m.Directive{Kind: "include", Path: rapid.SampledFrom(paths).Draw(t, "ipath")}
 	case "P":
 		syms := pools.Syms
